@@ -206,6 +206,14 @@ def frames_summary(r):
     fr = r.get("frames")
     if fr is None:
         return 0, "", None
+    # BufferOverflow is the documented outcome when what is already enqueued plus this frame and
+    # its terminator exceed the (hook-lowered) buffer limit; those runs say nothing about encoding
+    sf = r.get("serde_frame")
+    if sf is not None:
+        need = len(sf) // 2 + 1
+        fr = [f for f in fr if not (f["st"] == "err:overflow" and f["pad"] + need > r.get("limit", 0))]
+    if not fr:
+        return 0, "", None
     sts = set(f["st"] for f in fr)
     if sts == {"ok"}:
         fs = set(f["frame"] for f in fr)
